@@ -305,7 +305,15 @@ def run(rep, tier):
     else:
         rep.analysed(eb)
         for cls, nb in (("IBond", 2), ("IAngle", 3)) + ((("IDihedral", 4),) if tier == "thorough" else ()):
-            C07.check_interaction(AliasRep(rep, {"R7.1": "R6.8", "R7.2": "R6.8"}), FI, cls, nb, symbolic=(cls != "IDihedral"))
+            try:
+                C07.check_interaction(AliasRep(rep, {"R7.1": "R6.8", "R7.2": "R6.8"}), FI, cls, nb, symbolic=(cls != "IDihedral"))
+            except AnalysisBroken as e_:
+                if "reads positions through" in str(e_):
+                    # value and gradient must both use the minimum-image connection: a raw position difference gives a wrong direction for bonds across the box
+                    rep.violation("R6.8", "%s|positions-only-through-getDist" % cls, str(e_) + " (the gradient rows of the fit matrix point along the raw position "
+                                  "difference while the value uses the minimum image: wrong for a bonded pair on opposite sides of the periodic box)", None)
+                else:
+                    raise
     # ---------------------------------------------------------------- R6.7 (shared with C12)
     from rules import splinelib
     rep.rule("R6.7", "the spline space used by csg_fmatch: cubic basis interpolates, the constraint rows of AddBCToFitMatrix are the C1 "
